@@ -1526,6 +1526,7 @@ impl Vm {
                 }
             }
             Err(error) => {
+                self.active_fiber_mut().error_ip = None;
                 let exc_object = self.new_root_obj_err_from_error(error);
                 self.poke(0, Value::ObjInstance(exc_object.as_gc()));
                 self.unwind_stack()?;
@@ -1762,6 +1763,7 @@ impl Vm {
     }
 
     fn try_handle_error(&mut self, error: Error) -> Result<(), Error> {
+        self.active_fiber_mut().error_ip = None;
         let obj_err = self.new_root_obj_err_from_error(error);
         self.push(Value::ObjInstance(obj_err.as_gc()));
         self.unwind_stack()
